@@ -1,25 +1,306 @@
-//! List-backed finite map / set with the subset of the std API used by the crate.
-//! Assumption replaced: std::collections::{HashMap, HashSet} implement the finite map / set contract.
-pub use std::collections::{linked_list, LinkedList, VecDeque};
+//! Bounded, heap-free reference implementations of the std containers used by the crate,
+//! with the subset of the std API the crate calls.  Compiled only under cfg(kani), selected
+//! by import rewriting (tools/overlay.py).
+//!
+//! * `HashMap<K,V>` / `HashSet<T>`: insertion-ordered finite map / set stored inline in a
+//!   fixed array of `MAP_CAP` slots;
+//! * `LinkedList<T>`: sequence stored inline in a fixed array of `LIST_CAP` slots (index 0 = front).
+//!
+//! Exceeding a capacity is an explicit `kani` bound failure (message "BOUND: ..."), reported
+//! as inconclusive by the driver, never as a violation.
+//!
+//! Assumption replaced: the std containers implement the finite map / set / sequence
+//! contract; no behaviour may depend on hash iteration order (here: insertion order).
+pub use std::collections::VecDeque;
+
+pub const MAP_CAP: usize = 8;
+pub const LIST_CAP: usize = 5;
+
+pub mod linked_list {
+    use super::LIST_CAP;
+
+    pub struct LinkedList<T> {
+        pub(crate) items: [Option<T>; LIST_CAP],
+        pub(crate) len: usize,
+    }
+    impl<T> Default for LinkedList<T> {
+        fn default() -> Self {
+            Self::new()
+        }
+    }
+    impl<T: Clone> Clone for LinkedList<T> {
+        fn clone(&self) -> Self {
+            let mut l = Self::new();
+            let mut i = 0;
+            while i < self.len {
+                l.items[i] = self.items[i].clone();
+                i += 1;
+            }
+            l.len = self.len;
+            l
+        }
+    }
+    impl<T: std::fmt::Debug> std::fmt::Debug for LinkedList<T> {
+        fn fmt(&self, f: &mut std::fmt::Formatter<'_>) -> std::fmt::Result {
+            f.write_str("LinkedList")
+        }
+    }
+    impl<T: PartialEq> PartialEq for LinkedList<T> {
+        fn eq(&self, other: &Self) -> bool {
+            if self.len != other.len {
+                return false;
+            }
+            let mut i = 0;
+            while i < self.len {
+                if self.items[i] != other.items[i] {
+                    return false;
+                }
+                i += 1;
+            }
+            true
+        }
+    }
+    impl<T: Eq> Eq for LinkedList<T> {}
+    impl<T: std::hash::Hash> std::hash::Hash for LinkedList<T> {
+        fn hash<H: std::hash::Hasher>(&self, state: &mut H) {
+            self.len.hash(state);
+            let mut i = 0;
+            while i < self.len {
+                self.items[i].hash(state);
+                i += 1;
+            }
+        }
+    }
+    pub struct Iter<'a, T> {
+        list: &'a LinkedList<T>,
+        i: usize,
+        end: usize,
+    }
+    impl<'a, T> Iterator for Iter<'a, T> {
+        type Item = &'a T;
+        fn next(&mut self) -> Option<&'a T> {
+            if self.i < self.end {
+                let r = self.list.items[self.i].as_ref();
+                self.i += 1;
+                r
+            } else {
+                None
+            }
+        }
+        fn size_hint(&self) -> (usize, Option<usize>) {
+            (self.end - self.i, Some(self.end - self.i))
+        }
+    }
+    impl<'a, T> DoubleEndedIterator for Iter<'a, T> {
+        fn next_back(&mut self) -> Option<&'a T> {
+            if self.i < self.end {
+                self.end -= 1;
+                self.list.items[self.end].as_ref()
+            } else {
+                None
+            }
+        }
+    }
+    impl<'a, T> ExactSizeIterator for Iter<'a, T> {}
+    impl<'a, T> Clone for Iter<'a, T> {
+        fn clone(&self) -> Self {
+            Self { list: self.list, i: self.i, end: self.end }
+        }
+    }
+    pub struct IntoIter<T> {
+        items: [Option<T>; LIST_CAP],
+        i: usize,
+        end: usize,
+    }
+    impl<T> Iterator for IntoIter<T> {
+        type Item = T;
+        fn next(&mut self) -> Option<T> {
+            if self.i < self.end {
+                let r = self.items[self.i].take();
+                self.i += 1;
+                r
+            } else {
+                None
+            }
+        }
+        fn size_hint(&self) -> (usize, Option<usize>) {
+            (self.end - self.i, Some(self.end - self.i))
+        }
+    }
+    impl<T> DoubleEndedIterator for IntoIter<T> {
+        fn next_back(&mut self) -> Option<T> {
+            if self.i < self.end {
+                self.end -= 1;
+                self.items[self.end].take()
+            } else {
+                None
+            }
+        }
+    }
+    impl<T> LinkedList<T> {
+        pub fn new() -> Self {
+            Self { items: [const { None }; LIST_CAP], len: 0 }
+        }
+        pub fn len(&self) -> usize {
+            self.len
+        }
+        pub fn is_empty(&self) -> bool {
+            self.len == 0
+        }
+        pub fn clear(&mut self) {
+            let mut i = 0;
+            while i < LIST_CAP {
+                self.items[i] = None;
+                i += 1;
+            }
+            self.len = 0;
+        }
+        pub fn push_front(&mut self, x: T) {
+            assert!(self.len < LIST_CAP, "BOUND: list capacity exceeded");
+            let mut i = self.len;
+            while i > 0 {
+                self.items[i] = self.items[i - 1].take();
+                i -= 1;
+            }
+            self.items[0] = Some(x);
+            self.len += 1;
+        }
+        pub fn push_back(&mut self, x: T) {
+            assert!(self.len < LIST_CAP, "BOUND: list capacity exceeded");
+            self.items[self.len] = Some(x);
+            self.len += 1;
+        }
+        pub fn pop_front(&mut self) -> Option<T> {
+            if self.len == 0 {
+                return None;
+            }
+            let r = self.items[0].take();
+            let mut i = 1;
+            while i < self.len {
+                self.items[i - 1] = self.items[i].take();
+                i += 1;
+            }
+            self.len -= 1;
+            r
+        }
+        pub fn pop_back(&mut self) -> Option<T> {
+            if self.len == 0 {
+                return None;
+            }
+            self.len -= 1;
+            self.items[self.len].take()
+        }
+        pub fn front(&self) -> Option<&T> {
+            if self.len == 0 { None } else { self.items[0].as_ref() }
+        }
+        pub fn front_mut(&mut self) -> Option<&mut T> {
+            if self.len == 0 { None } else { self.items[0].as_mut() }
+        }
+        pub fn back(&self) -> Option<&T> {
+            if self.len == 0 { None } else { self.items[self.len - 1].as_ref() }
+        }
+        pub fn back_mut(&mut self) -> Option<&mut T> {
+            if self.len == 0 { None } else { self.items[self.len - 1].as_mut() }
+        }
+        pub fn iter(&self) -> Iter<'_, T> {
+            Iter { list: self, i: 0, end: self.len }
+        }
+        /// std semantics: returns everything from index `at` on; panics if `at > len`.
+        pub fn split_off(&mut self, at: usize) -> Self {
+            assert!(at <= self.len, "Cannot split off at a nonexistent index");
+            let mut other = Self::new();
+            let mut i = at;
+            while i < self.len {
+                other.items[i - at] = self.items[i].take();
+                i += 1;
+            }
+            other.len = self.len - at;
+            self.len = at;
+            other
+        }
+    }
+    impl<T> IntoIterator for LinkedList<T> {
+        type Item = T;
+        type IntoIter = IntoIter<T>;
+        fn into_iter(self) -> IntoIter<T> {
+            let end = self.len;
+            IntoIter { items: self.items, i: 0, end }
+        }
+    }
+    impl<'a, T> IntoIterator for &'a LinkedList<T> {
+        type Item = &'a T;
+        type IntoIter = Iter<'a, T>;
+        fn into_iter(self) -> Iter<'a, T> {
+            self.iter()
+        }
+    }
+    impl<T> FromIterator<T> for LinkedList<T> {
+        fn from_iter<I: IntoIterator<Item = T>>(iter: I) -> Self {
+            let mut l = Self::new();
+            for x in iter {
+                l.push_back(x);
+            }
+            l
+        }
+    }
+    impl<T, const N: usize> From<[T; N]> for LinkedList<T> {
+        fn from(arr: [T; N]) -> Self {
+            arr.into_iter().collect()
+        }
+    }
+}
+pub use linked_list::LinkedList;
 
 pub mod hash_map {
+    use super::MAP_CAP;
     use std::borrow::Borrow;
 
-    #[derive(Clone, Debug)]
     pub struct HashMap<K, V> {
-        pub(crate) items: Vec<(K, V)>,
+        pub(crate) items: [Option<(K, V)>; MAP_CAP],
+        pub(crate) len: usize,
     }
 
     impl<K, V> Default for HashMap<K, V> {
         fn default() -> Self {
-            Self { items: Vec::new() }
+            Self::new()
         }
     }
-
+    impl<K: Clone, V: Clone> Clone for HashMap<K, V> {
+        fn clone(&self) -> Self {
+            let mut m = Self::new();
+            let mut i = 0;
+            while i < self.len {
+                m.items[i] = self.items[i].clone();
+                i += 1;
+            }
+            m.len = self.len;
+            m
+        }
+    }
+    impl<K, V> std::fmt::Debug for HashMap<K, V> {
+        fn fmt(&self, f: &mut std::fmt::Formatter<'_>) -> std::fmt::Result {
+            f.write_str("HashMap")
+        }
+    }
     impl<K: Eq, V: PartialEq> PartialEq for HashMap<K, V> {
         fn eq(&self, other: &Self) -> bool {
-            self.items.len() == other.items.len()
-                && self.items.iter().all(|(k, v)| other.get(k).map_or(false, |w| v == w))
+            if self.len != other.len {
+                return false;
+            }
+            let mut i = 0;
+            while i < self.len {
+                let (k, v) = self.items[i].as_ref().unwrap();
+                match other.get(k) {
+                    Some(w) => {
+                        if v != w {
+                            return false;
+                        }
+                    }
+                    None => return false,
+                }
+                i += 1;
+            }
+            true
         }
     }
     impl<K: Eq, V: Eq> Eq for HashMap<K, V> {}
@@ -28,6 +309,7 @@ pub mod hash_map {
         Occupied(OccupiedEntry<'a, K, V>),
         Vacant(VacantEntry<'a, K, V>),
     }
+    // both payloads share one field layout (see DESIGN §2)
     pub struct OccupiedEntry<'a, K, V> {
         map: &'a mut HashMap<K, V>,
         idx: usize,
@@ -42,16 +324,16 @@ pub mod hash_map {
     }
     impl<'a, K, V> OccupiedEntry<'a, K, V> {
         pub fn key(&self) -> &K {
-            &self.map.items[self.idx].0
+            &self.map.items[self.idx].as_ref().unwrap().0
         }
         pub fn get(&self) -> &V {
-            &self.map.items[self.idx].1
+            &self.map.items[self.idx].as_ref().unwrap().1
         }
         pub fn get_mut(&mut self) -> &mut V {
-            &mut self.map.items[self.idx].1
+            &mut self.map.items[self.idx].as_mut().unwrap().1
         }
         pub fn into_mut(self) -> &'a mut V {
-            &mut self.map.items[self.idx].1
+            &mut self.map.items[self.idx].as_mut().unwrap().1
         }
     }
     impl<'a, K, V> VacantEntry<'a, K, V> {
@@ -59,39 +341,108 @@ pub mod hash_map {
             &self.key
         }
         pub fn insert(self, value: V) -> &'a mut V {
-            self.map.items.push((self.key, value));
-            let n = self.map.items.len();
-            &mut self.map.items[n - 1].1
+            assert!(self.map.len < MAP_CAP, "BOUND: map capacity exceeded");
+            let n = self.map.len;
+            self.map.items[n] = Some((self.key, value));
+            self.map.len = n + 1;
+            &mut self.map.items[n].as_mut().unwrap().1
+        }
+    }
+
+    pub struct Iter<'a, K, V> {
+        map: &'a HashMap<K, V>,
+        i: usize,
+    }
+    impl<'a, K, V> Iterator for Iter<'a, K, V> {
+        type Item = (&'a K, &'a V);
+        fn next(&mut self) -> Option<(&'a K, &'a V)> {
+            if self.i < self.map.len {
+                let r = self.map.items[self.i].as_ref().map(|kv| (&kv.0, &kv.1));
+                self.i += 1;
+                r
+            } else {
+                None
+            }
+        }
+        fn size_hint(&self) -> (usize, Option<usize>) {
+            (self.map.len - self.i, Some(self.map.len - self.i))
+        }
+    }
+    pub struct IntoIter<K, V> {
+        items: [Option<(K, V)>; MAP_CAP],
+        i: usize,
+        len: usize,
+    }
+    impl<K, V> Iterator for IntoIter<K, V> {
+        type Item = (K, V);
+        fn next(&mut self) -> Option<(K, V)> {
+            if self.i < self.len {
+                let r = self.items[self.i].take();
+                self.i += 1;
+                r
+            } else {
+                None
+            }
+        }
+        fn size_hint(&self) -> (usize, Option<usize>) {
+            (self.len - self.i, Some(self.len - self.i))
         }
     }
 
     impl<K, V> HashMap<K, V> {
         pub fn new() -> Self {
-            Self { items: Vec::new() }
+            Self { items: [const { None }; MAP_CAP], len: 0 }
         }
+        /// the request is recorded for the allocation contract of C14
         pub fn with_capacity(cap: usize) -> Self {
-            Self { items: Vec::with_capacity(cap) }
+            crate::kani_verif::alloc_log::request(cap);
+            Self::new()
         }
         pub fn len(&self) -> usize {
-            self.items.len()
+            self.len
         }
         pub fn is_empty(&self) -> bool {
-            self.items.is_empty()
+            self.len == 0
         }
-        pub fn iter(&self) -> impl Iterator<Item = (&K, &V)> {
-            self.items.iter().map(|(k, v)| (k, v))
+        pub fn iter(&self) -> Iter<'_, K, V> {
+            Iter { map: self, i: 0 }
         }
         pub fn iter_mut(&mut self) -> impl Iterator<Item = (&K, &mut V)> {
-            self.items.iter_mut().map(|(k, v)| (&*k, v))
+            let n = self.len;
+            self.items[..n].iter_mut().map(|o| {
+                let kv = o.as_mut().unwrap();
+                (&kv.0, &mut kv.1)
+            })
         }
         pub fn keys(&self) -> impl Iterator<Item = &K> {
-            self.items.iter().map(|(k, _)| k)
+            self.iter().map(|(k, _)| k)
         }
         pub fn values(&self) -> impl Iterator<Item = &V> {
-            self.items.iter().map(|(_, v)| v)
+            self.iter().map(|(_, v)| v)
+        }
+        fn remove_at(&mut self, i: usize) -> (K, V) {
+            let r = self.items[i].take().unwrap();
+            let mut j = i + 1;
+            while j < self.len {
+                self.items[j - 1] = self.items[j].take();
+                j += 1;
+            }
+            self.len -= 1;
+            r
         }
         pub fn retain(&mut self, mut f: impl FnMut(&K, &mut V) -> bool) {
-            self.items.retain_mut(|(k, v)| f(k, v));
+            let mut i = 0;
+            while i < self.len {
+                let keep = {
+                    let kv = self.items[i].as_mut().unwrap();
+                    f(&kv.0, &mut kv.1)
+                };
+                if keep {
+                    i += 1;
+                } else {
+                    let _ = self.remove_at(i);
+                }
+            }
         }
     }
     impl<K: Eq, V> HashMap<K, V> {
@@ -99,19 +450,32 @@ pub mod hash_map {
         where
             K: Borrow<Q>,
         {
-            self.items.iter().position(|(k, _)| k.borrow() == key)
+            let mut i = 0;
+            while i < self.len {
+                if self.items[i].as_ref().unwrap().0.borrow() == key {
+                    return Some(i);
+                }
+                i += 1;
+            }
+            None
         }
         pub fn get<Q: ?Sized + Eq>(&self, key: &Q) -> Option<&V>
         where
             K: Borrow<Q>,
         {
-            self.pos(key).map(|i| &self.items[i].1)
+            match self.pos(key) {
+                Some(i) => Some(&self.items[i].as_ref().unwrap().1),
+                None => None,
+            }
         }
         pub fn get_mut<Q: ?Sized + Eq>(&mut self, key: &Q) -> Option<&mut V>
         where
             K: Borrow<Q>,
         {
-            self.pos(key).map(|i| &mut self.items[i].1)
+            match self.pos(key) {
+                Some(i) => Some(&mut self.items[i].as_mut().unwrap().1),
+                None => None,
+            }
         }
         pub fn contains_key<Q: ?Sized + Eq>(&self, key: &Q) -> bool
         where
@@ -121,9 +485,11 @@ pub mod hash_map {
         }
         pub fn insert(&mut self, key: K, value: V) -> Option<V> {
             match self.pos(&key) {
-                Some(i) => Some(std::mem::replace(&mut self.items[i].1, value)),
+                Some(i) => Some(std::mem::replace(&mut self.items[i].as_mut().unwrap().1, value)),
                 None => {
-                    self.items.push((key, value));
+                    assert!(self.len < MAP_CAP, "BOUND: map capacity exceeded");
+                    self.items[self.len] = Some((key, value));
+                    self.len += 1;
                     None
                 }
             }
@@ -132,7 +498,10 @@ pub mod hash_map {
         where
             K: Borrow<Q>,
         {
-            self.pos(key).map(|i| self.items.remove(i).1)
+            match self.pos(key) {
+                Some(i) => Some(self.remove_at(i).1),
+                None => None,
+            }
         }
         pub fn entry(&mut self, key: K) -> Entry<'_, K, V> {
             match self.pos(&key) {
@@ -157,86 +526,166 @@ pub mod hash_map {
     }
     impl<K, V> IntoIterator for HashMap<K, V> {
         type Item = (K, V);
-        type IntoIter = std::vec::IntoIter<(K, V)>;
-        fn into_iter(self) -> Self::IntoIter {
-            self.items.into_iter()
+        type IntoIter = IntoIter<K, V>;
+        fn into_iter(self) -> IntoIter<K, V> {
+            let len = self.len;
+            IntoIter { items: self.items, i: 0, len }
         }
     }
     impl<'a, K, V> IntoIterator for &'a HashMap<K, V> {
         type Item = (&'a K, &'a V);
-        type IntoIter = std::iter::Map<std::slice::Iter<'a, (K, V)>, fn(&'a (K, V)) -> (&'a K, &'a V)>;
-        fn into_iter(self) -> Self::IntoIter {
-            fn f<'a, K, V>(kv: &'a (K, V)) -> (&'a K, &'a V) {
-                (&kv.0, &kv.1)
-            }
-            self.items.iter().map(f as fn(&'a (K, V)) -> (&'a K, &'a V))
+        type IntoIter = Iter<'a, K, V>;
+        fn into_iter(self) -> Iter<'a, K, V> {
+            self.iter()
         }
     }
     impl<K: serde::Serialize, V: serde::Serialize> serde::Serialize for HashMap<K, V> {
         fn serialize<S: serde::Serializer>(&self, s: S) -> Result<S::Ok, S::Error> {
-            s.collect_map(self.items.iter().map(|(k, v)| (k, v)))
+            s.collect_map(self.iter())
         }
     }
-    impl<'de, K: Eq + serde::Deserialize<'de>, V: serde::Deserialize<'de>> serde::Deserialize<'de>
-        for HashMap<K, V>
-    {
+    impl<'de, K: Eq + serde::Deserialize<'de>, V: serde::Deserialize<'de>> serde::Deserialize<'de> for HashMap<K, V> {
         fn deserialize<D: serde::Deserializer<'de>>(d: D) -> Result<Self, D::Error> {
             let v: Vec<(K, V)> = serde::Deserialize::deserialize(d)?;
             Ok(v.into_iter().collect())
         }
     }
 }
-
 pub use hash_map::HashMap;
 
-#[derive(Clone, Debug)]
 pub struct HashSet<T> {
-    items: Vec<T>,
+    pub(crate) items: [Option<T>; MAP_CAP],
+    pub(crate) len: usize,
 }
 impl<T> Default for HashSet<T> {
     fn default() -> Self {
-        Self { items: Vec::new() }
+        Self::new()
+    }
+}
+impl<T> std::fmt::Debug for HashSet<T> {
+    fn fmt(&self, f: &mut std::fmt::Formatter<'_>) -> std::fmt::Result {
+        f.write_str("HashSet")
+    }
+}
+impl<T: Clone> Clone for HashSet<T> {
+    fn clone(&self) -> Self {
+        let mut s = Self::new();
+        let mut i = 0;
+        while i < self.len {
+            s.items[i] = self.items[i].clone();
+            i += 1;
+        }
+        s.len = self.len;
+        s
     }
 }
 impl<T: Eq> PartialEq for HashSet<T> {
     fn eq(&self, other: &Self) -> bool {
-        self.items.len() == other.items.len() && self.items.iter().all(|x| other.contains(x))
+        if self.len != other.len {
+            return false;
+        }
+        let mut i = 0;
+        while i < self.len {
+            if !other.contains(self.items[i].as_ref().unwrap()) {
+                return false;
+            }
+            i += 1;
+        }
+        true
     }
 }
 impl<T: Eq> Eq for HashSet<T> {}
+pub struct SetIter<'a, T> {
+    set: &'a HashSet<T>,
+    i: usize,
+}
+impl<'a, T> Iterator for SetIter<'a, T> {
+    type Item = &'a T;
+    fn next(&mut self) -> Option<&'a T> {
+        if self.i < self.set.len {
+            let r = self.set.items[self.i].as_ref();
+            self.i += 1;
+            r
+        } else {
+            None
+        }
+    }
+    fn size_hint(&self) -> (usize, Option<usize>) {
+        (self.set.len - self.i, Some(self.set.len - self.i))
+    }
+}
+pub struct SetIntoIter<T> {
+    items: [Option<T>; MAP_CAP],
+    i: usize,
+    len: usize,
+}
+impl<T> Iterator for SetIntoIter<T> {
+    type Item = T;
+    fn next(&mut self) -> Option<T> {
+        if self.i < self.len {
+            let r = self.items[self.i].take();
+            self.i += 1;
+            r
+        } else {
+            None
+        }
+    }
+    fn size_hint(&self) -> (usize, Option<usize>) {
+        (self.len - self.i, Some(self.len - self.i))
+    }
+}
 impl<T> HashSet<T> {
     pub fn new() -> Self {
-        Self { items: Vec::new() }
+        Self { items: [const { None }; MAP_CAP], len: 0 }
     }
     pub fn with_capacity(cap: usize) -> Self {
-        Self { items: Vec::with_capacity(cap) }
+        crate::kani_verif::alloc_log::request(cap);
+        Self::new()
     }
     pub fn len(&self) -> usize {
-        self.items.len()
+        self.len
     }
     pub fn is_empty(&self) -> bool {
-        self.items.is_empty()
+        self.len == 0
     }
-    pub fn iter(&self) -> std::slice::Iter<'_, T> {
-        self.items.iter()
+    pub fn iter(&self) -> SetIter<'_, T> {
+        SetIter { set: self, i: 0 }
     }
 }
 impl<T: Eq> HashSet<T> {
+    fn pos(&self, x: &T) -> Option<usize> {
+        let mut i = 0;
+        while i < self.len {
+            if self.items[i].as_ref().unwrap() == x {
+                return Some(i);
+            }
+            i += 1;
+        }
+        None
+    }
     pub fn contains(&self, x: &T) -> bool {
-        self.items.iter().any(|y| y == x)
+        self.pos(x).is_some()
     }
     pub fn insert(&mut self, x: T) -> bool {
         if self.contains(&x) {
             false
         } else {
-            self.items.push(x);
+            assert!(self.len < MAP_CAP, "BOUND: set capacity exceeded");
+            self.items[self.len] = Some(x);
+            self.len += 1;
             true
         }
     }
     pub fn remove(&mut self, x: &T) -> bool {
-        match self.items.iter().position(|y| y == x) {
+        match self.pos(x) {
             Some(i) => {
-                self.items.remove(i);
+                self.items[i] = None;
+                let mut j = i + 1;
+                while j < self.len {
+                    self.items[j - 1] = self.items[j].take();
+                    j += 1;
+                }
+                self.len -= 1;
                 true
             }
             None => false,
@@ -259,15 +708,16 @@ impl<T: Eq, const N: usize> From<[T; N]> for HashSet<T> {
 }
 impl<T> IntoIterator for HashSet<T> {
     type Item = T;
-    type IntoIter = std::vec::IntoIter<T>;
-    fn into_iter(self) -> Self::IntoIter {
-        self.items.into_iter()
+    type IntoIter = SetIntoIter<T>;
+    fn into_iter(self) -> SetIntoIter<T> {
+        let len = self.len;
+        SetIntoIter { items: self.items, i: 0, len }
     }
 }
 impl<'a, T> IntoIterator for &'a HashSet<T> {
     type Item = &'a T;
-    type IntoIter = std::slice::Iter<'a, T>;
-    fn into_iter(self) -> Self::IntoIter {
-        self.items.iter()
+    type IntoIter = SetIter<'a, T>;
+    fn into_iter(self) -> SetIter<'a, T> {
+        self.iter()
     }
 }
